@@ -722,6 +722,95 @@ func twoHolders(t *testing.T, idx int64, c ctor, r *rand.Rand) {
 	rt.Distinct(fmt.Sprintf("two|%s|%v", c.Name, trace))
 }
 
+// releaseWhileTheLockIsBusy: one unit, held; two callers queued; a third is inside its slow path (paused at the
+// schedule point before its push, i.e. while it owns the limiter's lock) when the holder completes in another goroutine
+// which, as soon as the completion has returned, asks for a token itself.  A completion that has returned has offered its
+// unit to the queue: the late-comer cannot have it while older callers wait; who gets it is decided by the ordering.
+func releaseWhileTheLockIsBusy(t *testing.T, idx int64, c ctor, r *rand.Rand) {
+	if c.build == nil {
+		return // pools with their own inner limiter are covered through the generic pools
+	}
+	type wt struct {
+		id   int
+		done atomic.Bool
+		ok   bool
+		l    core.Listener
+	}
+	var ws []*wt
+	var late wt
+	yields := []int{200, 2000, 20000}[r.IntN(3)]
+	rt.Scenario("C11/"+c.Name+"/release-while-the-lock-is-busy", idx, rt.J{"constructor": c.Name})
+	defer rt.ScenarioDone()
+	bubble(t, func(t *testing.T) {
+		lim := c.build(inner(1))
+		holder, ok := lim.Acquire(context.Background())
+		if !ok {
+			panic("c11: first unit refused")
+		}
+		ctx, cancel := context.WithCancel(context.Background())
+		spawn := func() {
+			w := &wt{id: len(ws)}
+			ws = append(ws, w)
+			go func() { w.l, w.ok = lim.Acquire(ctx); w.done.Store(true) }()
+		}
+		spawn()
+		synctest.Wait()
+		time.Sleep(time.Millisecond)
+		spawn()
+		synctest.Wait()
+		time.Sleep(time.Millisecond)
+		var once atomic.Bool
+		limiter.SetVerifHook(func(name string) {
+			if name != "queue.before_push" || !once.CompareAndSwap(false, true) {
+				return
+			}
+			go func() {
+				holder.OnSuccess()
+				late.l, late.ok = lim.Acquire(ctx)
+				late.done.Store(true)
+			}()
+			for i := 0; i < yields; i++ {
+				runtime.Gosched()
+			}
+		})
+		spawn() // the third caller: pauses before its push
+		synctest.Wait()
+		limiter.SetVerifHook(nil)
+		var granted []int
+		for _, w := range ws {
+			if w.done.Load() && w.ok {
+				granted = append(granted, w.id)
+			}
+		}
+		lateGranted := late.done.Load() && late.ok
+		want := 0
+		if c.Order == "lifo" {
+			want = 2
+		}
+		rt.Count("releases_while_the_limiter_lock_was_busy", 1)
+		if lateGranted || len(granted) != 1 || granted[0] != want {
+			rt.Violation("C11/"+c.Name+"/release-while-the-lock-was-busy-not-granted-in-the-configured-order", idx, rt.J{"constructor": c.Name, "documented_order": c.Order,
+				"queued_callers_granted(arrival ids)": granted, "expected": want, "caller_that_arrived_after_the_release_returned_was_granted": lateGranted, "pause_yields": yields})
+		}
+		// clean up: everybody leaves or is served in turn
+		cancel()
+		synctest.Wait()
+		if !c.NoTimeout {
+			time.Sleep(c.Timeout + time.Second)
+		}
+		for round := 0; round < 8; round++ {
+			synctest.Wait()
+			for _, w := range append(ws, &late) {
+				if w.done.Load() && w.ok && w.l != nil {
+					w.l.OnIgnore()
+					w.l = nil
+				}
+			}
+		}
+		synctest.Wait()
+	})
+}
+
 func TestCheck(t *testing.T) {
 	cs := ctors()
 	rt.Cases(3000, 1500000, func(idx int64) {
@@ -729,6 +818,10 @@ func TestCheck(t *testing.T) {
 		rt.Case()
 		if idx%20 == 19 {
 			twoHolders(t, idx, cs[int(idx/20)%len(cs)], r)
+			return
+		}
+		if idx%20 == 9 {
+			releaseWhileTheLockIsBusy(t, idx, cs[int(idx/20)%len(cs)], r)
 			return
 		}
 		scenario(t, idx, cs[int(idx)%len(cs)], r)
